@@ -390,7 +390,9 @@ func buildChunk(col vt.Column, typ int32, recs []*vt.Val, cp ChunkPhys, inj *Inj
 	// dictionary injection applies to the whole chunk
 	var dict []vt.Val
 	dictIdx := map[string]int{}
-	if inj != nil && (inj.Kind == "dict-plain" || inj.Kind == "dict-rle") {
+	// "dict-fallback": the chunk has a dictionary page, recorded in dictionary_page_offset, but every data page is PLAIN (a writer
+	// that fell back to plain encoding at once): the dictionary page is the only unsupported thing in the file
+	if inj != nil && (inj.Kind == "dict-plain" || inj.Kind == "dict-rle" || inj.Kind == "dict-fallback") {
 		for _, t := range ts {
 			if t.Val != nil {
 				k := string(t.Val.S) + fmt.Sprintf("/%d", t.Val.U)
